@@ -294,8 +294,12 @@ var explanations = []explanation{
 	{"paren-wrappers-only", canonOpts{stripParens: true}, true},
 	{"numlit-integral-reparsed-as-integer", canonOpts{numAsInt: true}, false},
 	{"numlit-integral-reparsed-as-integer+paren-wrappers", canonOpts{numAsInt: true, stripParens: true}, false},
-	{"timeliteral-reparsed-as-string", canonOpts{timeAsString: true}, false},
-	{"timeliteral-reparsed-as-string+numlit-integral", canonOpts{timeAsString: true, numAsInt: true, stripParens: true}, false},
+	// The language spells a time as a quoted RFC3339 string and nothing else; TimeLiteral
+	// nodes are made only by Reduce/ConditionExpr from such strings next to `time`, and
+	// TimeLiteral.String() is that string again. ValuerEval gives nil for a TimeLiteral and
+	// the text for a StringLiteral; compared with the integer `time` both yield "no match".
+	{"timeliteral-as-rfc3339-string", canonOpts{timeAsString: true}, true},
+	{"timeliteral-as-rfc3339-string+paren-wrappers", canonOpts{timeAsString: true, stripParens: true}, true},
 }
 
 func classify(a, b any, base canonOpts) verdict {
